@@ -562,3 +562,135 @@ func VerifC04PartialReadFanOut() {
 	sr.Close()
 	vassert(len(acc) == 2 && acc["up"] == want["up"] && acc["low"] == want["low"], "every copy of a partly consumed stream continues where the stream stands (array- and pipe-backed alike)")
 }
+
+// Repeated calls: a workflow whose node gets a static value besides its mapped input answers every call of every
+// paradigm alike — the second (third) call of a compiled runnable agrees with the first, in any mix of paradigms.
+func VerifC04StaticValues() {
+	ctx := context.Background()
+	vcfg("fifo", 1)
+	vcfg("selectfirst", 1)
+	natives := 1 << vchoose("native", 4)
+	f := c04Fn{name: "f"}
+	wf := NewWorkflow[string, string]()
+	type in = map[string]any // map chunks concatenate key-wise; struct chunks would need a registered concat function
+	var node *Lambda
+	str := func(v in, k string) string { s, _ := v[k].(string); return s }
+	body := func(v in) string { return f.F(str(v, "X")) + "/" + str(v, "S") }
+	switch natives {
+	case 1:
+		node = InvokableLambda(func(ctx context.Context, v in) (string, error) { return body(v), nil })
+	case 2:
+		node = StreamableLambda(func(ctx context.Context, v in) (*schema.StreamReader[string], error) {
+			return schema.StreamReaderFromArray([]string{f.p(str(v, "X")), f.q(str(v, "X")), "/" + str(v, "S")}), nil
+		})
+	case 4:
+		node = CollectableLambda(func(ctx context.Context, sr *schema.StreamReader[in]) (string, error) {
+			v, err := concatStreamReader(sr)
+			if err != nil {
+				return "", err
+			}
+			return body(v), nil
+		})
+	default:
+		node = TransformableLambda(func(ctx context.Context, sr *schema.StreamReader[in]) (*schema.StreamReader[string], error) {
+			v, err := concatStreamReader(sr)
+			if err != nil {
+				return nil, err
+			}
+			return schema.StreamReaderFromArray([]string{f.p(str(v, "X")), f.q(str(v, "X")) + "/" + str(v, "S")}), nil
+		})
+	}
+	wf.AddLambdaNode("n", node).AddInput(START, ToField("X")).SetStaticValue(FieldPath{"S"}, "static")
+	wf.End().AddInput("n")
+	r, err := wf.Compile(ctx)
+	vassert(err == nil, "workflow with a static value compiles")
+	a, b := vsymStr("a"), vsymStr("b")
+	want := f.F(a+b) + "/static"
+	calls := 2 + vtier()
+	for k := 0; k < calls; k++ {
+		p := vchoose("paradigm", 4)
+		var out string
+		var e error
+		switch p {
+		case 0:
+			out, e = r.Invoke(ctx, a+b)
+		case 1:
+			sr, e2 := r.Stream(ctx, a+b)
+			e = e2
+			if e2 == nil {
+				out, e = c04Drain(sr)
+			}
+		case 2:
+			out, e = r.Collect(ctx, schema.StreamReaderFromArray([]string{a, b}))
+		default:
+			sr, e2 := r.Transform(ctx, schema.StreamReaderFromArray([]string{a, b}))
+			e = e2
+			if e2 == nil {
+				out, e = c04Drain(sr)
+			}
+		}
+		vassert(e == nil, "static value: call "+string(rune('1'+k))+" ("+c04ParNames[p]+") succeeds")
+		vassert(out == want, "static value: call "+string(rune('1'+k))+" ("+c04ParNames[p]+") returns the mapped input processed by the node plus the static value")
+	}
+}
+
+// A node whose output stream fails lazily (its producer panics while a later chunk is pulled) next to a healthy
+// sibling, both feeding END under output keys: every paradigm reports an error; none crashes or hangs.
+func VerifC04LazyPanic() {
+	ctx := context.Background()
+	vcfg("fifo", 1)
+	vcfg("selectfirst", 1)
+	at := vchoose("at", 3) // the chunk whose conversion panics
+	g := NewGraph[string, map[string]any]()
+	_ = g.AddLambdaNode("bad", StreamableLambda(func(ctx context.Context, in string) (*schema.StreamReader[string], error) {
+		src := schema.StreamReaderFromArray([]int{0, 1, 2})
+		return schema.StreamReaderWithConvert(src, func(i int) (string, error) {
+			if i == at {
+				panic("c04 lazy producer panic")
+			}
+			return in, nil
+		}), nil
+	}), WithOutputKey("bad"))
+	_ = g.AddLambdaNode("good", InvokableLambda(func(ctx context.Context, in string) (string, error) { return in, nil }), WithOutputKey("good"))
+	_ = g.AddEdge(START, "bad")
+	_ = g.AddEdge(START, "good")
+	_ = g.AddEdge("bad", END)
+	_ = g.AddEdge("good", END)
+	r, err := g.Compile(ctx)
+	vassert(err == nil, "graph compiles")
+	drain := func(sr *schema.StreamReader[map[string]any]) error {
+		defer sr.Close()
+		for i := 0; i < 10; i++ {
+			_, e := sr.Recv()
+			if e == io.EOF {
+				return nil
+			}
+			if e != nil {
+				return e
+			}
+		}
+		return nil
+	}
+	var e error
+	p := vchoose("paradigm", 4)
+	switch p {
+	case 0:
+		_, e = r.Invoke(ctx, "x")
+	case 1:
+		sr, e2 := r.Stream(ctx, "x")
+		e = e2
+		if e2 == nil {
+			e = drain(sr)
+		}
+	case 2:
+		_, e = r.Collect(ctx, schema.StreamReaderFromArray([]string{"x"}))
+	default:
+		sr, e2 := r.Transform(ctx, schema.StreamReaderFromArray([]string{"x"}))
+		e = e2
+		if e2 == nil {
+			e = drain(sr)
+		}
+	}
+	vquiesce()
+	vassert(e != nil, "a producer that panics while a chunk is pulled is reported as an error by "+c04ParNames[p]+" (at call time or as an error item)")
+}
